@@ -272,7 +272,11 @@ fn apply_fault(doc: &mut Value, kind: &str, ft: &Value, dups: &mut Vec<String>) 
             let b = big_vlq(a);
             let z = "A".to_string();
             let fld = |k: &str| if k == key { b.clone() } else { z.clone() };
-            target["mappings"] = json!(format!("AAAAA,{}{}{}{}{},CAAAA;{}", fld("dst_col"), fld("src_id"), fld("src_line"), fld("src_col"), fld("name_id"), "CAAA"));
+            // three tokens on line 0 (the faulty one in the middle, reachable by lookups to its right), one on line 1;
+            // the first two are range tokens
+            let col = if key == "dst_col" { b.clone() } else { "E".to_string() };
+            target["mappings"] = json!(format!("AAAAA,{}{}{}{}{},GAAAA;{}", col, fld("src_id"), fld("src_line"), fld("src_col"), fld("name_id"), "CAAA"));
+            if target.get("rangeMappings").is_some() { target["rangeMappings"] = json!("D"); }
         }
         "nest" => {
             let depth: usize = a.parse().unwrap();
